@@ -341,6 +341,7 @@ Bad(b, p, f) ==
   R_dup_enumerator      |-> fm = "enum" /\ DupNames({<<i, 0, f.items[i].n>> : i \in DOMAIN f.items}),
   R_empty_declaration   |-> fm = "misc" /\ f.kind = "toplevel_semi" /\ p = "file",
   R_nested_function     |-> fm = "misc" /\ f.kind = "nested_fn" /\ p # "file",
+  R_syntax_drop         |-> fm = "drop",
   R_syntax              |-> \/ fm = "misc" /\ f.kind \in {"missing_semi", "unbalanced_paren", "kw_as_ident", "init_missing_comma"}
                             \/ fm = "synx" /\ f.kind # "paren_ok"
                             \/ fm = "generic" /\ "bad" \in SeqSet(f.assoc),
@@ -389,7 +390,7 @@ UnsupNames == DOMAIN Unsup("b01", "block", None)
 (* Fragments whose required outcome is not certain (C11 leaves it undefined or            *)
 (* implementation-defined, or the reference compilers used for the audit are known to be   *)
 (* laxer/stricter than the text) are not generated at all.  Each line says why.            *)
-Excluded(b, p, f) ==
+ExcludedCore(b, p, f) ==
   LET fm == f.form IN
   \/ p \notin FeasiblePos(f)
   \* void pointer <-> function pointer: constraint by the letter, universally accepted extension
@@ -443,6 +444,16 @@ Excluded(b, p, f) ==
   \* the literal that ends the translation unit can only be rendered where nothing of the fragment follows it
   \/ fm = "lit" /\ f.kind \in {"eof_char", "eof_str"} /\ p = "macro"
 
+Excluded(b, p, f) ==
+  IF f.form = "drop"
+  THEN \/ ExcludedCore(b, p, f.of) \/ ~Typed(b, p, f.of)
+       \/ f.of.form = "sinit" /\ p = "file" /\ ~Ent(f.of.o).cst
+       \/ f.tok \notin Closers(f.of)
+       \* the fragment that loses a token must itself be valid and supported here, so that the missing token is all that is wrong
+       \/ (LET r == Bad(b, p, f.of) IN \E n \in DOMAIN r : r[n])
+       \/ (LET u == Unsup(b, p, f.of) IN \E n \in DOMAIN u : u[n])
+  ELSE ExcludedCore(b, p, f)
+
 (* ------------------------------------------------------------------------------ *)
 Viol(b, p, f)  == IF f = None THEN {} ELSE LET r == Bad(b, p, f) IN {n \in DOMAIN r : r[n]}
 Unsp(b, p, f)  == IF f = None THEN {} ELSE LET r == Unsup(b, p, f) IN {n \in DOMAIN r : r[n]}
@@ -485,6 +496,23 @@ R_designator(P) == Rule("R_designator", P)
 (* ------------------------------------------------------------------------------ *)
 (* WITNESSES: for every named rule, hand-chosen fragments meant to violate exactly   *)
 (* that rule (for U_ names: to use exactly that unsupported feature).                *)
+(* valid fragments that lose one closing token (see CSFrags!Closers) *)
+DropBase == {
+  FBin("+", "gp", "gi"), FAsg("=", "gi", "gd"), FUn("neg", "gd"), FUn("sizeof", "gs"), FCall("gf", <<"gi">>), FCall("gvf", <<>>), FCast("int", "gd"),
+  FSizeofT("sizeof", "int"), FSizeofT("_Alignof", "struct_S"), FBuiltin("offsetof_ok", FALSE), FBuiltin("tcp_ok", FALSE),
+  FCtl("if", "gi"), FCtl("while", "gp"), FCtl("do", "gd"), FCtl("for", "gb"), FCtl("switch", "gi"),
+  FAlignas(8, "int"), FAlignas(8, "member"), FSa("1", "decl", TRUE), FSa("1", "struct", TRUE),
+  FParam(<<Pm("a", "", "int"), Pm("b", "", "int")>>, FALSE), FFdecl("int"),
+  FCond("gi", "gi", "gd"), FGeneric("gi", <<"int", "default">>), FIdx("gp", "gi"), FIdx("ga", "k1"), FArr("3", "int"),
+  FStmt("goto", "L1"), FBf("int", 3, TRUE, FALSE, 0), FBf("int", 0, FALSE, FALSE, 0),
+  FInit("arr2", 2, "none", "k1"), FInit("struct_T", 1, "mem_q", "k1"), FInit("arr2", 1, "idx1", "k1"), FEnum(<<En("ZA", ""), En("ZB", "3")>>),
+  FStruct(<<M("a", "int"), M("b", "int")>>), FStruct(<<M("a", "int"), [M("", "anon") EXCEPT !.inner = <<"b", "c">>]>>),
+  FTag("struct", "I", TRUE, "decl"), FTag("union", "Znew", TRUE, "ptr"), FTag("enum", "Znew", TRUE, "decl"), FObj("int"), FObj("struct_S")}
+DropCtx == {FStmt("case", "2"), FStmt("default", ""), FStmt("break", ""), FStmt("continue", ""), FStmt("return", "none"), FStmt("return", "gi"),
+            FStmt("return", "gp"), FStmt("return", "gs")}
+DropFrags == {FDrop(f, t) : f \in DropBase \cup DropCtx, t \in {")", "]", "}", ":", ";"}}
+AllFragsX == AllFrags \cup DropFrags
+
 DI(h, v, p) == [D0("define") EXCEPT !.fl = TRUE, !.hashop = h, !.va = v, !.paste = p]
 Wit == [
   R_undeclared |-> {FUse("nope")},
@@ -623,6 +651,7 @@ Wit == [
   R_dup_enumerator |-> {FEnum(<<En("ZA", ""), En("ZA", "")>>), FEnum(<<En("ZA", "3"), En("ZB", ""), En("ZA", "9")>>)},
   R_empty_declaration |-> {FMisc("toplevel_semi")},
   R_nested_function |-> {FMisc("nested_fn")},
+  R_syntax_drop |-> DropFrags,
   R_syntax |-> {FMisc("missing_semi"), FMisc("unbalanced_paren"), FMisc("kw_as_ident"), FMisc("init_missing_comma"), FGeneric("gi", <<"bad", "default">>)}
                \cup {FSynx(k) : k \in {"member_nonident", "alignof_noparen", "missing_operand", "cond_missing_colon", "typedef_as_value"}},
   R_dir_unknown |-> {D0("foo")},
@@ -768,7 +797,7 @@ Benign(p)     == /\ "benign" \in Mode
                        /\ (f.form = "sinit" /\ p = "file") => Ent(f.o).cst
                        /\ Fill(p, f, "valid")
 Compose(p)    == /\ "compose" \in Mode
-                 /\ \E f \in AllFrags : /\ Forms = {} \/ f.form \in Forms
+                 /\ \E f \in AllFragsX : /\ Forms = {} \/ f.form \in Forms
                                         /\ ~Excluded(prog.base, p, f)
                                         /\ Fill(p, f, "any")
 
@@ -887,6 +916,7 @@ Violate_R_enum_range(p) == Violate("R_enum_range", p)
 Violate_R_dup_enumerator(p) == Violate("R_dup_enumerator", p)
 Violate_R_empty_declaration(p) == Violate("R_empty_declaration", p)
 Violate_R_nested_function(p) == Violate("R_nested_function", p)
+Violate_R_syntax_drop(p) == Violate("R_syntax_drop", p)
 Violate_R_syntax(p) == Violate("R_syntax", p)
 Violate_R_dir_unknown(p) == Violate("R_dir_unknown", p)
 Violate_R_dir_unbalanced(p) == Violate("R_dir_unbalanced", p)
@@ -1030,6 +1060,7 @@ NamedViolate(p) ==
   \/ Violate_R_dup_enumerator(p)
   \/ Violate_R_empty_declaration(p)
   \/ Violate_R_nested_function(p)
+  \/ Violate_R_syntax_drop(p)
   \/ Violate_R_syntax(p)
   \/ Violate_R_dir_unknown(p)
   \/ Violate_R_dir_unbalanced(p)
@@ -1078,6 +1109,7 @@ SubOf(f) == CASE f.form \in {"bin", "un"} -> f.op
               [] f.form = "redecl" -> f.name
               [] f.form \in {"synx", "lit", "misc", "builtin"} -> f.kind
               [] f.form = "dir" -> (IF f.va # "none" THEN f.va ELSE f.d)
+              [] f.form = "drop" -> f.tok
               [] OTHER -> f.form
 
 (* One invariant evaluates the rules once per state and does three things:                 *)
@@ -1115,7 +1147,8 @@ Meta == [ents |-> [n \in EntNames |-> [decl |-> Ent(n).decl, txt |-> Ent(n).txt,
          nwit |-> [r \in RuleNames \cup UnsupNames |-> Cardinality(Wit[r])]]
 ASSUME PrintT("VCASE " \o ToJson([meta |-> Meta]))
 ASSUME DOMAIN Wit = RuleNames \cup UnsupNames
-ASSUME \A r \in DOMAIN Wit : Wit[r] # {} /\ Wit[r] \subseteq AllFrags
+ASSUME \A r \in DOMAIN Wit : Wit[r] # {} /\ Wit[r] \subseteq AllFragsX
+ASSUME DropBase \subseteq BenignFrags
 ASSUME BenignFrags \subseteq AllFrags
 ASSUME \A b \in AllBases : BenignCtx(b) \subseteq AllFrags
 =============================================================================
